@@ -14,6 +14,10 @@ def main():
     except ModuleNotFoundError as e:
         print(f"no check for {a.prop}: {e}")
         sys.exit(2)
+    except Exception:
+        traceback.print_exc()
+        print("INTERNAL-ERROR while loading the check; nothing decided")
+        sys.exit(2)
     try:
         if a.replay:
             sys.exit(mod.replay(a.replay))
